@@ -13,6 +13,8 @@ FROMS = [
     # the WHERE predicates below are over t: the NULL-supplying side of a RIGHT join, one of the two of a FULL join
     ('right', 'FROM t RIGHT JOIN u ON t.a = u.a', ['t.a', 't.b', 't.s', 'u.c', 'u.d'], 'right-join'),
     ('full', 'FROM t FULL JOIN u ON t.a = u.a', ['t.a', 't.b', 't.s', 'u.c', 'u.d'], 'full-join'),
+    # an equi key AND a non-equi residual in ON, filtered from outside: flattening the join must keep both
+    ('joinres', 'FROM t JOIN u ON t.a = u.a AND t.b < u.c + 1', ['t.a', 't.b', 't.s', 'u.c', 'u.d'], 'inner-join-residual'),
 ]
 UPREDS = ['u.c IS NULL', 'u.c > 1', 'u.a IS NOT NULL AND t.b IS NULL']
 PREDS = ['t.a = 1', 't.a <> t.b', 't.b IS NULL', 't.a IN (1, 2)', 't.a BETWEEN 1 AND t.b', "t.s LIKE 'a%'", 't.a = 1 OR t.b = 2', 'NOT (t.a = 1 AND t.b = 2)',
@@ -112,6 +114,13 @@ def statements(level):
     S.append(_mk('SELECT a FROM (SELECT a, a * 0 AS s FROM t) q WHERE s = 0', 'derived-shadow-other-type'))
     S.append(_mk('SELECT a, b FROM (SELECT a, b FROM (SELECT a, a AS b FROM t) x WHERE b = 1) y WHERE a = b', 'derived-shadow-nested'))
     S.append(_mk("SELECT a, s FROM (SELECT a, CASE WHEN s IS NULL THEN 'n' ELSE s END AS s FROM t) q WHERE s = 'n'", 'derived-shadow-case'))
+    # ON with an equi key and a residual, a WHERE over a column that is neither projected nor joined on (a projection lands between the filtered scan and the join)
+    for w in ("t.s <> 'ab'", 't.s IS NOT NULL', 'u.d IS NOT NULL', "t.s <> 'ab' AND u.d IS NOT NULL"):
+        S.append(_mk('SELECT t.a, u.c FROM t JOIN u ON t.a = u.a AND t.b < u.c + 1 WHERE %s' % w, 'join-residual+unprojected-filter'))
+        S.append(_mk('SELECT t.a, u.c FROM t JOIN u ON t.a = u.a AND t.b < u.c + 1 WHERE %s ORDER BY u.c DESC NULLS LAST, t.a LIMIT 2' % w, 'join-residual+unprojected-filter+topk',
+                     ref='SELECT t.a, u.c FROM t JOIN u ON t.a = u.a AND t.b < u.c + 1 WHERE %s' % w, order=[(1, True, False), (0, False, False)], limit=2))
+        S.append(_mk('SELECT COUNT(*) AS n FROM t JOIN u ON t.a = u.a AND t.b <> u.c WHERE %s' % w, 'join-residual+unprojected-filter+count'))
+    S.append(_mk("SELECT t.a, u.c FROM u JOIN t ON u.a = t.a AND u.c + 1 > t.b WHERE t.s <> 'ab'", 'join-residual+unprojected-filter-swapped'))
     # date / double columns of u
     S.append(_mk("SELECT a, c, d FROM u WHERE d >= DATE '2024-01-01' AND c < 2.0", 'date-double-filter'))
     S.append(_mk('SELECT d, SUM(c) AS sc, COUNT(*) AS n FROM u GROUP BY d', 'date-group'))
